@@ -272,7 +272,7 @@ pub fn h_mvreg_merge(inp: &Inp) -> u8 {
     }
 }
 
-//@ harness props=C18 covers=3 name=MVReg reset_remove(c) on SPEC(U,K): keeps exactly the values whose clock is not covered by c, with the covered dots subtracted; empty clock no-op; own clock empties; c1 then c2 = join; idempotent
+//@ harness props=C01,C05,C18 covers=3 name=MVReg reset_remove(c) on SPEC(U,K): keeps exactly the values whose clock is not covered by c, with the covered dots subtracted; empty clock no-op; own clock empties; c1 then c2 = join; idempotent
 #[no_mangle]
 pub fn h_mvreg_reset_remove(inp: &Inp) -> u8 {
     let mut i = In::new(inp);
